@@ -1,24 +1,44 @@
 // C09: conditional inclusion keeps exactly the groups a conforming preprocessor keeps.
 //
-// Token-level harness.  The REAL process_directive, skip_false_if_block, handle_if_directive (control flow),
-// handle_ifdef_directive and handle_ifndef_directive run over a fully symbolic file of NLINES lines; each line is a
-// symbolic choice from a menu of directive kinds.  The character level (get, skip_whitespace, skip_comment,
-// get_preprocessor_command, get_preprocessor_args) is replaced by a line-level reader that delivers, for line i, the
-// characters '#', then the command word and argument string of its kind (or the marker character and a newline), and
-// maintains _start_of_line like the real get(): symbolic bytes through the real per-character code do not terminate
-// in this engine (one symbolic 9-byte line > 5 min).  The character level is exercised on concrete programs by
-// harness/c09_chars.cxx.
-// Cut as the plan says: macro expansion and the bison parser inside handle_if_directive (parse_expr returns the
-// literal 0/1 of the controlling expression as a real CPPExpression which the real evaluate() evaluates);
+// The REAL process_directive, skip_false_if_block, handle_if_directive (control flow), handle_ifdef_directive and
+// handle_ifndef_directive run over every well-nested file of NLINES lines, each line one of 17 kinds (see Kind).
+//
+// Shape of the query.  Symbolic bytes through the per-character code of cppPreprocessor.cxx do not terminate in this
+// engine (one symbolic 9-byte directive line: > 5 min; CBMC folds no comparison of a symbolic byte, so every std::string
+// built from the input has a symbolic length).  Making only the line kinds symbolic does not help: after the first
+// conditional the read position is symbolic and with it every command string (3 lines: > 10 min, also with
+// cbmc --paths).  The files are therefore enumerated by a concrete depth-first loop that CBMC unrolls inside the
+// query (ill-nested prefixes are pruned); NPARTS residue classes = NPARTS catalogue entries.
+//
+// CHARLEVEL=0 (token level): get / skip_whitespace / skip_comment / get_preprocessor_command / get_preprocessor_args
+//   are replaced by a line-level reader that delivers '#', the command word and the argument string of line i (or the
+//   marker character and a newline) and maintains _start_of_line like the real get().
+// CHARLEVEL=1: the real character-level code reads the text of the file through the istream byte model; DECOR selects
+//   how the lines are spelled (blanks around '#', trailing /* # */ or // # comments).
+// Cut in both modes, as the plan says: macro expansion and the bison parser inside handle_if_directive (parse_expr
+// returns the literal 0/1 of the controlling expression as a real CPPExpression which the real evaluate() evaluates);
 // is_manifest_defined is "the name is D"; handle_define_directive / handle_error_directive record that they ran.
 #include "verif.h"
+#include "vstream.h"
 #include "cppPreprocessor.h"
 #include "cppExpressionParser.h"
 #include "cppExpression.h"
 #include <string>
 
 #ifndef NLINES
-#define NLINES 5
+#define NLINES 3
+#endif
+#ifndef NPARTS
+#define NPARTS 1
+#endif
+#ifndef PART
+#define PART 0
+#endif
+#ifndef CHARLEVEL
+#define CHARLEVEL 0
+#endif
+#ifndef DECOR
+#define DECOR 0
 #endif
 
 enum Kind {
@@ -28,15 +48,23 @@ enum Kind {
 };
 static inline bool is_open(int k) { return k <= K_IFNDEF_F; }
 static inline bool is_elif(int k) { return k >= K_ELIF_T && k <= K_ELIFNDEF_F; }
-static inline bool cond_true(int k) { return (k % 2) == 0; }           // *_T kinds are even (for open/elif kinds)
+static inline bool cond_true(int k) { return (k % 2) == 0; }           // the *_T kinds are the even ones
 
-// ---- the symbolic file and the line-level reader -------------------------------------------------------------------
+// command word and argument of each kind (2-D arrays: no pointer tables)
+static const char WORD[K_COUNT][9] = {"if", "if", "ifdef", "ifdef", "ifndef", "ifndef", "elif", "elif", "elifdef", "elifdef",
+                                      "elifndef", "elifndef", "else", "endif", "define", "error", ""};
+static const unsigned WLEN[K_COUNT] = {2, 2, 5, 5, 6, 6, 4, 4, 7, 7, 8, 8, 4, 5, 6, 5, 0};
+static const char ARG[K_COUNT][2] = {"1", "0", "D", "U", "U", "D", "1", "0", "D", "U", "U", "D", "", "", "X", "e", ""};
+
 static int kind[NLINES + 1];
-static int rd_line;          // index of the line being read
-static int rd_phase;         // 0 line start, 1 after '#', 2 after the marker character, 3 command pending, 4 args pending
-static int cur_line;         // line of the directive whose command word was delivered last
+static int cur_line;         // token level: line of the directive whose command word was delivered last
 static int protocol_error;
 static bool survived[NLINES + 1], defined_at[NLINES + 1], error_at[NLINES + 1];
+
+#if !CHARLEVEL
+// ---- the line-level reader ------------------------------------------------------------------------------------------
+static int rd_line;          // index of the line being read
+static int rd_phase;         // 0 line start, 1 after '#', 2 after the marker character, 3 command pending, 4 args pending
 
 int CPPPreprocessor::get() {
   if (rd_line >= NLINES) return EOF;
@@ -62,19 +90,8 @@ int CPPPreprocessor::skip_comment(int c) { return c; }
 
 int CPPPreprocessor::get_preprocessor_command(int c, std::string &command) {
   if (rd_phase != 3 || rd_line >= NLINES) { protocol_error = 1; return EOF; }
-  switch (kind[rd_line]) {
-  case K_IF_T: case K_IF_F: command = "if"; break;
-  case K_IFDEF_T: case K_IFDEF_F: command = "ifdef"; break;
-  case K_IFNDEF_T: case K_IFNDEF_F: command = "ifndef"; break;
-  case K_ELIF_T: case K_ELIF_F: command = "elif"; break;
-  case K_ELIFDEF_T: case K_ELIFDEF_F: command = "elifdef"; break;
-  case K_ELIFNDEF_T: case K_ELIFNDEF_F: command = "elifndef"; break;
-  case K_ELSE: command = "else"; break;
-  case K_ENDIF: command = "endif"; break;
-  case K_DEFINE: command = "define"; break;
-  case K_ERROR: command = "error"; break;
-  default: protocol_error = 1; break;
-  }
+  int k = kind[rd_line];
+  command.assign(WORD[k], WLEN[k]);
   cur_line = rd_line;
   rd_phase = 4;
   return ' ';
@@ -82,18 +99,15 @@ int CPPPreprocessor::get_preprocessor_command(int c, std::string &command) {
 
 int CPPPreprocessor::get_preprocessor_args(int c, std::string &args) {
   if (rd_phase != 4 || rd_line >= NLINES) { protocol_error = 1; return EOF; }
-  switch (kind[rd_line]) {
-  case K_IF_T: case K_ELIF_T: args = "1"; break;
-  case K_IF_F: case K_ELIF_F: args = "0"; break;
-  case K_IFDEF_T: case K_ELIFDEF_T: case K_IFNDEF_F: case K_ELIFNDEF_F: args = "D"; break;
-  case K_IFDEF_F: case K_ELIFDEF_F: case K_IFNDEF_T: case K_ELIFNDEF_T: args = "U"; break;
-  case K_DEFINE: args = "X"; break;
-  case K_ERROR: args = "e"; break;
-  default: args = ""; break;
-  }
+  int k = kind[rd_line];
+  args.assign(ARG[k], ARG[k][0] ? 1 : 0);
   rd_line++; rd_phase = 0; _start_of_line = true;
   return '\n';
 }
+#define LINE_OF(loc) cur_line
+#else
+#define LINE_OF(loc) ((loc).first_line - 1)
+#endif
 
 // ---- cut points below the conditional logic -------------------------------------------------------------------------
 bool CPPPreprocessor::is_manifest_defined(const std::string &name) const {
@@ -104,57 +118,101 @@ bool CPPExpressionParser::parse_expr(const std::string &expr, const CPPPreproces
   _expr = new CPPExpression((int)(expr.size() == 1 && expr[0] == '1'));
   return true;
 }
-void CPPPreprocessor::handle_define_directive(const std::string &args, const YYLTYPE &loc) { defined_at[cur_line] = true; }
-void CPPPreprocessor::handle_error_directive(const std::string &args, const YYLTYPE &loc) { error_at[cur_line] = true; }
+void CPPPreprocessor::handle_define_directive(const std::string &args, const YYLTYPE &loc) {
+  int l = LINE_OF(loc);
+  if (l >= 0 && l < NLINES) defined_at[l] = true; else protocol_error = 1;
+}
+void CPPPreprocessor::handle_error_directive(const std::string &args, const YYLTYPE &loc) {
+  int l = LINE_OF(loc);
+  if (l >= 0 && l < NLINES) error_at[l] = true; else protocol_error = 1;
+}
 
-// ---- reference: the conditional-inclusion machine of C11 6.10.1 ------------------------------------------------------
-struct Frame { bool parent_active, taken, active, seen_else; };
+// ---- one file: reference machine (C11 6.10.1), driver, comparison --------------------------------------------------
+struct Frame { bool parent_active, taken, active; };
 
-extern "C" void harness_c09_cond() {
+#if CHARLEVEL
+#define LMAX 24
+static char text[NLINES * LMAX + 4];
+static int put(int n, const char *s) { while (*s) text[n++] = *s++; return n; }
+static int build_text() {
+  int n = 0;
   for (int i = 0; i < NLINES; i++) {
-    int k = nondet_int();
-    ASSUME(k >= 0 && k < K_COUNT);
-    kind[i] = k;
+    int k = kind[i];
+    if (k == K_MARKER) {
+      if (DECOR == 1) n = put(n, "  ");
+      n = put(n, "M");
+      if (DECOR == 2) n = put(n, " /* #else */");
+      if (DECOR == 3) n = put(n, " // #endif");
+    } else {
+      if (DECOR == 1) n = put(n, "  #  "); else n = put(n, "#");
+      n = put(n, WORD[k]);
+      if (ARG[k][0]) { n = put(n, " "); n = put(n, ARG[k]); }
+      if (DECOR == 1) n = put(n, "  ");
+      if (DECOR == 2) n = put(n, " /* # */");
+      if (DECOR == 3) n = put(n, " // #");
+    }
+    n = put(n, "\n");
   }
-  kind[NLINES] = K_MARKER;
+  n = put(n, "Z\n");                     // sentinel: the driver stops here, the end of the stream is never read
+  return n;
+}
+#endif
 
-  // reference walk; it also states well-nestedness (the property's precondition)
+static void __attribute__((noinline)) run_file(CPPPreprocessor *pp) {
   bool want_survive[NLINES], want_define[NLINES], want_error[NLINES];
   Frame st[NLINES + 1];
   int depth = 0;
-  bool ok = true;
   for (int i = 0; i < NLINES; i++) {
     int k = kind[i];
     bool active = depth == 0 ? true : st[depth - 1].active;
     want_survive[i] = want_define[i] = want_error[i] = false;
+    survived[i] = defined_at[i] = error_at[i] = false;
     if (is_open(k)) {
-      Frame f; f.parent_active = active; f.taken = active && cond_true(k); f.active = f.taken; f.seen_else = false;
-      if (depth <= NLINES) st[depth] = f;
+      Frame f; f.parent_active = active; f.taken = active && cond_true(k); f.active = f.taken;
+      st[depth] = f;
       depth++;
     } else if (is_elif(k) || k == K_ELSE) {
-      if (depth == 0 || st[depth - 1].seen_else) { ok = false; }
-      else {
-        Frame &f = st[depth - 1];
-        bool c = (k == K_ELSE) ? true : cond_true(k);
-        if (k == K_ELSE) f.seen_else = true;
-        f.active = f.parent_active && !f.taken && c;
-        if (f.active) f.taken = true;
-      }
-    } else if (k == K_ENDIF) {
-      if (depth == 0) ok = false; else depth--;
-    } else if (k == K_MARKER) want_survive[i] = active;
+      Frame &f = st[depth - 1];
+      bool c = (k == K_ELSE) ? true : cond_true(k);
+      f.active = f.parent_active && !f.taken && c;
+      if (f.active) f.taken = true;
+    } else if (k == K_ENDIF) depth--;
+    else if (k == K_MARKER) want_survive[i] = active;
     else if (k == K_DEFINE) want_define[i] = active;
     else if (k == K_ERROR) want_error[i] = active;
   }
-  ASSUME(ok && depth == 0);
 
   // driver: the directive dispatch of internal_get_next_token
-  CPPPreprocessor *pp = new CPPPreprocessor;
-  rd_line = 0; rd_phase = 0; cur_line = 0; protocol_error = 0;
+  protocol_error = 0; cur_line = 0;
   pp->_start_of_line = true;
+  pp->_save_comments = true;
+  pp->_unget = '\0';
+  bool consumed = false;
+#if CHARLEVEL
+  int n = build_text();
+  CPPPreprocessor::InputFile *in = new CPPPreprocessor::InputFile;
+  in->_in = vs_istream_bytes(text, (unsigned)n);
+  pp->_infile = in;
+  int c = pp->skip_whitespace(pp->get());
+  for (int step = 0; step < 2 * NLINES + 2; step++) {
+    if (c == 'Z') { consumed = true; break; }
+    if (c == EOF) break;
+    if (c == '#' && pp->_start_of_line) {
+      c = pp->skip_whitespace(pp->process_directive(c));
+    } else if (c == 'M') {
+      int l = pp->get_line_number() - 1;
+      if (l >= 0 && l < NLINES) survived[l] = true; else protocol_error = 1;
+      c = pp->skip_whitespace(pp->get());
+    } else {
+      protocol_error = 1;
+      break;
+    }
+  }
+#else
+  rd_line = 0; rd_phase = 0;
   int c = pp->get();
   for (int step = 0; step < 2 * NLINES + 2; step++) {
-    if (c == EOF) break;
+    if (c == EOF) { consumed = (rd_line == NLINES); break; }
     if (c == '#' && pp->_start_of_line) {
       c = pp->process_directive(c);
       c = pp->get();
@@ -165,8 +223,9 @@ extern "C" void harness_c09_cond() {
       c = pp->get();
     }
   }
-  ASSERT(c == EOF, "C09 the whole file is consumed");
-  ASSERT(protocol_error == 0, "C09 the conditional code reads directives in the order command, arguments");
+#endif
+  ASSERT(consumed, "C09 the whole file is consumed, nothing beyond it");
+  ASSERT(protocol_error == 0, "C09 directives are read as command word then arguments, on their own lines");
   bool same = true, defs = true, errs = true;
   for (int i = 0; i < NLINES; i++) {
     if (survived[i] != want_survive[i]) same = false;
@@ -176,5 +235,33 @@ extern "C" void harness_c09_cond() {
   ASSERT(same, "C09 the text lines that reach the parser are exactly those in the groups a conforming preprocessor keeps");
   ASSERT(defs, "C09 #define is acted upon exactly in kept groups");
   ASSERT(errs, "C09 #error is acted upon exactly in kept groups");
+}
+
+// ---- enumeration of the well-nested files ------------------------------------------------------------------------------
+static int leaf_index;
+static int leaves_run;
+static void gen(CPPPreprocessor *pp, int i, int d, unsigned seen_else) {
+  if (i == NLINES) {
+    if (leaf_index % NPARTS == PART) { run_file(pp); leaves_run++; }
+    leaf_index++;
+    return;
+  }
+  for (int k = 0; k < K_COUNT; k++) {
+    int nd = d; unsigned ns = seen_else;
+    if (is_open(k)) { ns &= ~(1u << d); nd = d + 1; }
+    else if (is_elif(k)) { if (d == 0 || ((seen_else >> (d - 1)) & 1)) continue; }
+    else if (k == K_ELSE) { if (d == 0 || ((seen_else >> (d - 1)) & 1)) continue; ns |= 1u << (d - 1); }
+    else if (k == K_ENDIF) { if (d == 0) continue; nd = d - 1; }
+    if (nd > NLINES - 1 - i) continue;               // could not be closed any more
+    kind[i] = k;
+    gen(pp, i + 1, nd, ns);
+  }
+}
+
+extern "C" void harness_c09_cond() {
+  CPPPreprocessor *pp = new CPPPreprocessor;
+  leaf_index = 0; leaves_run = 0;
+  gen(pp, 0, 0, 0);
+  ASSERT(leaves_run > 0, "C09 harness: this residue class is not empty");
   WITNESS();
 }
